@@ -421,6 +421,10 @@ func (p *prover) factLin(f Fact) []lin {
 			case "strings.HasPrefix", "strings.HasSuffix", "bytes.HasPrefix", "bytes.HasSuffix":
 				p.notes["contract: HasPrefix/HasSuffix(s, p) ⇒ len(p) ≤ len(s)"] = true
 				return []lin{p.lenOf(argsOf(c)[0]).add(p.lenOf(argsOf(c)[1]), -1)}
+			case "bytes.Equal":
+				p.notes["contract: bytes.Equal(a, b) ⇒ len(a) = len(b)"] = true
+				la, lb := p.lenOf(argsOf(c)[0]), p.lenOf(argsOf(c)[1])
+				return []lin{la.add(lb, -1), lb.add(la, -1)}
 			}
 		}
 		return nil
